@@ -21,6 +21,7 @@ import (
 	"github.com/brocaar/lorawan/backend"
 
 	"lwverif/core"
+	"lwverif/spec"
 )
 
 func init() {
@@ -139,6 +140,15 @@ func c09Entries() []c09Entry {
 		{name: "Frequency.UnmarshalJSON", text: true, call: func(r *core.RNG, b []byte) error { var h backend.Frequency; return h.UnmarshalJSON(b) }},
 		{name: "Percentage.UnmarshalJSON", text: true, call: func(r *core.RNG, b []byte) error { var h backend.Percentage; return h.UnmarshalJSON(b) }},
 		{name: "KeyEnvelope.Unwrap", call: func(r *core.RNG, b []byte) error {
+			if len(b) > 0 && b[0]%4 == 0 {
+				// a *valid* RFC 3394 wrapping (under the all-zero KEK used below) of a key that is not 16 bytes long
+				n := []int{16, 24, 32, 40, 8}[int(b[0]/4)%5]
+				pt := make([]byte, n)
+				copy(pt, b)
+				if w, err := spec.KeyWrap(make([]byte, 16), pt); err == nil {
+					b = w
+				}
+			}
 			env := backend.KeyEnvelope{KEKLabel: "x", AESKey: backend.HEXBytes(b)}
 			_, err := env.Unwrap(make([]byte, 16))
 			return err
@@ -236,7 +246,18 @@ func c09Entries() []c09Entry {
 var c09TextAlphabet = []byte("0123456789abcdefABCDEFxX+-/=.:TZ \t\"{}[],eE")
 
 func c09TextInput(r *core.RNG, ln int) []byte {
-	switch r.Intn(8) {
+	switch r.Intn(9) {
+	case 8:
+		// text files and some HTTP peers put a byte-order mark or other invisible bytes in front
+		pre := []string{"\xef\xbb\xbf", "\xef\xbb\xbf0", "\xef\xbb\xbf0x", "\xfe\xff", "\xef\xbb", " ", "\t", "\n", "\x00"}[r.Intn(9)]
+		b := make([]byte, r.Intn(ln+1))
+		for i := range b {
+			b[i] = "0123456789abcdefABCDEF"[r.Intn(22)]
+		}
+		if r.Bool() {
+			return append([]byte(pre), b...)
+		}
+		return append(b, pre...)
 	case 6, 7:
 		// timestamps as peers write them, including the forms only some parsers take: the inserted leap
 		// second 23:59:60, seconds / minutes / hours / days one past their range, fractions of 1..12
